@@ -1005,6 +1005,13 @@ func callBuiltin(caller *frame, callpos token.Pos, fn *ssa.Builtin, args []value
 			panic(engineError{"len of structural string"})
 		case symstr:
 			return strLen(x)
+		case *strbytes:
+			if ss, ok := x.s.(symstr); ok {
+				return strLen(ss)
+			}
+			return len(x.s.(string))
+		case *digestbytes:
+			return 32
 		default:
 			panic(engineError{fmt.Sprintf("len: illegal operand: %T", x)})
 		}
@@ -1156,6 +1163,15 @@ func widen(x value) value {
 func conv(t_dst, t_src types.Type, x value) value {
 	if isSym(x) {
 		return symConv(t_dst, t_src, x)
+	}
+	if ss, ok := x.(symstr); ok {
+		if _, isSlice := t_dst.Underlying().(*types.Slice); isSlice {
+			return &strbytes{ss}
+		}
+		return ss
+	}
+	if sb, ok := x.(*strbytes); ok {
+		return sb.s
 	}
 	ut_src := t_src.Underlying()
 	ut_dst := t_dst.Underlying()
